@@ -77,6 +77,8 @@ class Report:
 
     # -- finishing ----------------------------------------------------
     def enforce_minimums(self) -> None:
+        if self.violations():
+            return  # a located violation is reported; it must not be masked by a count shortfall
         counts: Dict[str, int] = {}
         for inst in self.instances:
             counts[inst.rule] = counts.get(inst.rule, 0) + 1
